@@ -1,6 +1,6 @@
 From Coq Require Import Extraction ExtrOcamlBasic.
 From CV Require Import C11.MemStreamModel C11.CrashModel C11.StateReadModel C11.BinReadModel.
 Extraction Language OCaml.
-Extraction "model.ml" empty_stream input_stream run_op output good blen DEFAULT_MAX le64 enc_all read_items write_items
+Extraction "model.ml" empty_stream input_stream run_op read_vector_into output good blen DEFAULT_MAX le64 enc_all read_items write_items
   history session history_w session_w W_restart W_bias W_replica start empty_fs safe complete mkS
   load_c mkB load_bin_c mkBB.
